@@ -61,6 +61,10 @@ pub trait Check: Sync {
     fn assumptions(&self) -> Vec<&'static str>;
     fn generate(&self, profile: &str, seed: u64) -> Plan;
     fn judge(&self, v: &View) -> Verdict;
+    /// Precondition of the property on a plan; the shrinker only keeps candidates that satisfy it.
+    fn plan_ok(&self, _plan: &Plan) -> bool {
+        true
+    }
 }
 
 /// Which property a panic belongs to.
